@@ -239,7 +239,7 @@ class C07(_BldProp):
 
 class C13(Prop):
     id = "C13"
-    required = ["C13.rebuild_raw", "C13.rebuild_items", "C13.rebuild_from_addresses"]
+    required = ["C13.rebuild_raw", "C13.rebuild_items", "C13.rebuild_from_addresses", "C13.augment"]
     rule = ("every generated accepted header (all valid control pairs, every family, well-formed / malformed / empty sections, payloads to 65535) "
             "rebuilt four ways through the real views and builder; non-trivial = distinct (family, section shape) with a non-empty section")
 
@@ -259,7 +259,9 @@ class C13(Prop):
         if line == "nohdr":
             return None
         _, kv = C.fields(line)
-        return (kv.get("raw"), kv.get("sec"), kv.get("items"), kv.get("addr"), kv.get("braw"), kv.get("baddr"))
+        aug = kv.get("aug")
+        # "big" (the augmented header no longer fits) is whatever the size limits say (C09 / C20 pin those)
+        return (kv.get("raw"), kv.get("sec"), kv.get("items"), kv.get("addr"), kv.get("braw"), kv.get("baddr"), aug if aug in ("eq", "na", "big") else "diff")
 
     def relation(self, ops, impl):
         out = []
@@ -282,6 +284,8 @@ class C13(Prop):
                 problems.append("re-encoding from decoded items")
             if fam != 0 and (kv.get("addr") != "eq" or (wf and kv.get("baddr") != "eq")):
                 problems.append("rebuilding from the decoded address value")
+            if fam != 0 and wf and len(hdr) - 16 + 5 <= 65535 and kv.get("aug") != "eq":
+                problems.append("decoded parts + one more TLV do not parse back to the same endpoints and old items ++ [new] (C13.augment)")
             if problems:
                 out.append(Violation("relation", op, il[:400], None, "does not reproduce the header: " + ", ".join(problems)))
         return out
